@@ -606,6 +606,13 @@ def plan(tier: str):
             for nm in (b"[/x]", b"[bold]x[/bold]", b"[/]", b"[red", b"x[/red]", b"\\[x]", b"[link=a]b", b"{x}%s%d"):
                 for via in ("connect", "setname"):
                     cases.append((tc, lvl, True, 1, False, [["markup", nm.hex(), via]], "single", 0))
+    if tier == "quick":
+        # the manager started with the timecode header layout (its own messages, notices included, are built around that header):
+        # the families in which the manager itself has to write or report
+        for f in single_faults(True, tier):
+            if f[0] in ("wdie", "adie", "slow", "shared-id-newcomer") or (f[0] == "mass-die" and f[1] <= 120):
+                for grace in ((1,) if f[0] not in ("wdie", "adie") else (0, 2)):
+                    cases.append((True, mmx.SILENT if f[0] != "slow" else logging.INFO, True, grace, False, [f], "single", 0))
     for tc, lvl, mon in envs:
         singles = single_faults(tc, tier)
         for f in singles:
